@@ -24,6 +24,7 @@ CTCS = [
     [('IMPLIES', 'F0', 'F1'), ('XOR', 'F1', 'F0')],
     [('OR', ('NOT', 'F1'), ('AND', 'F0', 'F1')), ('EQUIVALENCE', 'F0', ('NOT', 'F1'))],
     [('REQUIRES', 'F1', 'F0'), ('EXCLUDES', 'F0', 'F1'), ('NOT', ('XOR', 'F0', ('OR', 'F1', 'F0')))],
+    [('IMPLIES', 'F0', 'F1'), ('IMPLIES', 'F0', 'F1'), ('EXCLUDES', 'F1', 'F0'), ('OR', ('NOT', 'F0'), 'F1'), ('EXCLUDES', 'F1', 'F0')],      # repeated constraints (each must survive)
 ]
 
 
@@ -50,7 +51,7 @@ def _rename(t, mp):
 def cycle_ok(m, cycles=3) -> bool:
     """dict-level write/read cycles from model m."""
     d = to_json(m)
-    m2 = JSONReader.parse_json(d)
+    m2 = rt.json_transform(JSONReader, d)      # first read through the real transform(), later ones through parse_json()
     if not rt.same_model(m, m2, attrs=True, types=False):
         return False
     prev_d, prev_m = d, m2
@@ -233,7 +234,12 @@ def batches(tier, seed):
     nt = len(rt.ctc_family(FRAG_OPS, ['F0', 'F1', 'F2'], full))
     st = nt // 12 + 1
     b += [('batch_trees', [lo, lo + st, full]) for lo in range(0, nt, st)]
+    b.append(('batch_dups', []))
     return b
+
+
+def _noop():
+    pass
 
 
 def info(tier):
@@ -247,3 +253,16 @@ def info(tier):
                      'bounds': {'shapes': 'N<=%d' % (4 if tier == 'quick' else 5), 'name_len': 3 if tier == 'quick' else 4, 'attribute_int': 'unbounded'},
                      'stubs': ['json.dump / json.load (identity on JSON-representable values)']},
     }
+
+
+def replay_dups(k):
+    """near-duplicate constraints (repeated literally / differing by letter case of a name) through the real files."""
+    m = rt.dup_models()[k]
+    try:
+        return ['%s | constraints %r' % (b[:400], rt.DUP_CTC_SETS[k]) for b in file_roundtrip(m)]
+    except Exception as exc:
+        return ['round trip raises %s: %s (constraints %r)' % (type(exc).__name__, exc, rt.DUP_CTC_SETS[k])]
+
+
+def batch_dups():
+    return rt.dup_batch(__name__, 'json-duplicate-constraints')
